@@ -129,6 +129,9 @@ type IntervalAnalysis struct {
 	params  map[*ssa.Parameter]Itv
 	dead    map[*ssa.Function]bool
 	lens    map[*types.Var]Itv
+	plens   map[*ssa.Parameter]Itv
+	stack   []*ssa.Function
+	tainted map[*ssa.Function]bool
 	lenBusy map[*types.Var]bool
 	// FieldItv, when set, supplies an invariant interval for loads of a field.
 	FieldItv func(f *types.Var) (Itv, bool)
@@ -143,7 +146,7 @@ func (p *Program) Intervals() *IntervalAnalysis {
 			sizes = p.Mod[0].TypesSizes
 		}
 		p.CallGraph()
-		p.intervals = &IntervalAnalysis{p: p, sizes: sizes, fns: map[*ssa.Function]*FnIntervals{}, busy: map[*ssa.Function]bool{}, params: map[*ssa.Parameter]Itv{}, dead: map[*ssa.Function]bool{}, lens: map[*types.Var]Itv{}, lenBusy: map[*types.Var]bool{}}
+		p.intervals = &IntervalAnalysis{p: p, sizes: sizes, fns: map[*ssa.Function]*FnIntervals{}, busy: map[*ssa.Function]bool{}, params: map[*ssa.Parameter]Itv{}, dead: map[*ssa.Function]bool{}, lens: map[*types.Var]Itv{}, plens: map[*ssa.Parameter]Itv{}, tainted: map[*ssa.Function]bool{}, lenBusy: map[*types.Var]bool{}}
 	}
 	return p.intervals
 }
@@ -154,7 +157,9 @@ type FnIntervals struct {
 	val      map[ssa.Value]Itv
 	refine   map[*ssa.BasicBlock]map[ssa.Value]Itv
 	rounds   map[ssa.Value]int
+	unreach  map[*ssa.BasicBlock]bool
 	lenDepth int
+	done     bool
 }
 
 func (ia *IntervalAnalysis) top(t types.Type) Itv {
@@ -169,18 +174,38 @@ func (ia *IntervalAnalysis) Analyze(fn *ssa.Function) *FnIntervals {
 	if fi, ok := ia.fns[fn]; ok {
 		return fi
 	}
-	fi := &FnIntervals{ia: ia, fn: fn, val: map[ssa.Value]Itv{}, refine: map[*ssa.BasicBlock]map[ssa.Value]Itv{}, rounds: map[ssa.Value]int{}}
+	fi := &FnIntervals{ia: ia, fn: fn, val: map[ssa.Value]Itv{}, refine: map[*ssa.BasicBlock]map[ssa.Value]Itv{}, rounds: map[ssa.Value]int{}, unreach: map[*ssa.BasicBlock]bool{}}
 	ia.fns[fn] = fi
 	if fn.Blocks == nil {
 		return fi
 	}
 	ia.busy[fn] = true
-	defer delete(ia.busy, fn)
+	ia.stack = append(ia.stack, fn)
+	defer func() {
+		delete(ia.busy, fn)
+		ia.stack = ia.stack[:len(ia.stack)-1]
+		if len(ia.stack) == 0 {
+			// results computed while a caller was still being analysed used
+			// the full range for its arguments: drop them so that the next
+			// query recomputes them against the finished caller
+			for f := range ia.tainted {
+				delete(ia.fns, f)
+				for _, q := range f.Params {
+					delete(ia.params, q)
+					delete(ia.plens, q)
+				}
+			}
+			ia.tainted = map[*ssa.Function]bool{}
+		}
+	}()
 	order := fn.DomPreorder()
 	for round := 0; round < 40; round++ {
 		changed := false
 		for _, b := range order {
 			fi.computeRefine(b)
+			if fi.unreach[b] {
+				continue
+			}
 			for _, ins := range b.Instrs {
 				v, ok := ins.(ssa.Value)
 				if !ok {
@@ -190,6 +215,9 @@ func (ia *IntervalAnalysis) Analyze(fn *ssa.Function) *FnIntervals {
 					continue
 				}
 				nv := fi.eval(v, b)
+				if nv.empty() {
+					continue
+				}
 				old, had := fi.val[v]
 				if had && nv.eq(old) {
 					continue
@@ -219,6 +247,7 @@ func (ia *IntervalAnalysis) Analyze(fn *ssa.Function) *FnIntervals {
 			break
 		}
 	}
+	fi.done = true
 	return fi
 }
 
@@ -267,6 +296,13 @@ func (fi *FnIntervals) base(v ssa.Value) Itv {
 		// free variable / value of an enclosing function
 		return ia.top(v.Type())
 	}
+	if !fi.done {
+		if _, isInstr := v.(ssa.Instruction); isInstr {
+			if _, isInt := typeRange(v.Type(), ia.sizes); isInt {
+				return Itv{} // not computed yet in this round: bottom
+			}
+		}
+	}
 	return ia.top(v.Type())
 }
 
@@ -279,48 +315,62 @@ func (fi *FnIntervals) computeRefine(b *ssa.BasicBlock) {
 	}
 	if len(b.Preds) == 1 {
 		p := b.Preds[0]
-		fi.edgeRefine(p, b, m)
+		fi.unreach[b] = !fi.edgeRefine(p, b, m)
+	} else if len(b.Preds) > 1 {
+		// reachable iff some incoming edge is feasible
+		any := false
+		for _, p := range b.Preds {
+			if fi.edgeRefine(p, b, map[ssa.Value]Itv{}) {
+				any = true
+			}
+		}
+		fi.unreach[b] = !any
 	}
 	fi.refine[b] = m
 }
 
 // edgeRefine adds to m the refinements learnt on the edge p -> b.
-func (fi *FnIntervals) edgeRefine(p, b *ssa.BasicBlock, m map[ssa.Value]Itv) {
+func (fi *FnIntervals) edgeRefine(p, b *ssa.BasicBlock, m map[ssa.Value]Itv) bool {
+	if fi.unreach[p] {
+		return false
+	}
 	if len(p.Instrs) == 0 {
-		return
+		return true
 	}
 	ifi, ok := p.Instrs[len(p.Instrs)-1].(*ssa.If)
 	if !ok || len(p.Succs) != 2 || p.Succs[0] == p.Succs[1] {
-		return
+		return true
 	}
 	pol := p.Succs[0] == b
-	fi.refineCond(ifi.Cond, pol, p, m)
+	return fi.refineCond(ifi.Cond, pol, p, m)
 }
 
-func (fi *FnIntervals) refineCond(c ssa.Value, pol bool, at *ssa.BasicBlock, m map[ssa.Value]Itv) {
+func (fi *FnIntervals) refineCond(c ssa.Value, pol bool, at *ssa.BasicBlock, m map[ssa.Value]Itv) bool {
 	switch x := c.(type) {
 	case *ssa.UnOp:
 		if x.Op == token.NOT {
-			fi.refineCond(x.X, !pol, at, m)
+			return fi.refineCond(x.X, !pol, at, m)
 		}
 	case *ssa.BinOp:
 		op := x.Op
 		switch op {
 		case token.EQL, token.NEQ, token.LSS, token.LEQ, token.GTR, token.GEQ:
 		default:
-			return
+			return true
 		}
 		if _, isInt := typeRange(x.X.Type(), fi.ia.sizes); !isInt {
-			return
+			return true
 		}
 		if !pol {
 			op = negateOp(op)
 		}
 		xi := fi.atWith(x.X, at, m)
 		yi := fi.atWith(x.Y, at, m)
-		fi.applyRefine(x.X, op, yi, xi, m)
-		fi.applyRefine(x.Y, flipOp(op), xi, yi, m)
+		f1 := fi.applyRefine(x.X, op, yi, xi, m)
+		f2 := fi.applyRefine(x.Y, flipOp(op), xi, yi, m)
+		return f1 && f2
 	}
+	return true
 }
 
 func (fi *FnIntervals) atWith(v ssa.Value, b *ssa.BasicBlock, m map[ssa.Value]Itv) Itv {
@@ -366,9 +416,9 @@ func flipOp(op token.Token) token.Token {
 }
 
 // applyRefine: v op other (other has interval oi; v currently vi).
-func (fi *FnIntervals) applyRefine(v ssa.Value, op token.Token, oi, vi Itv, m map[ssa.Value]Itv) {
-	if _, isConst := v.(*ssa.Const); isConst || oi.empty() || vi.empty() {
-		return
+func (fi *FnIntervals) applyRefine(v ssa.Value, op token.Token, oi, vi Itv, m map[ssa.Value]Itv) bool {
+	if oi.empty() || vi.empty() {
+		return true
 	}
 	one := big.NewInt(1)
 	r := vi
@@ -393,7 +443,10 @@ func (fi *FnIntervals) applyRefine(v ssa.Value, op token.Token, oi, vi Itv, m ma
 		}
 	}
 	if r.empty() {
-		return // infeasible edge: keep what we had
+		return false // infeasible edge
+	}
+	if _, isConst := v.(*ssa.Const); isConst {
+		return true
 	}
 	m[v] = r
 	// look through value-preserving conversions and len-preserving copies
@@ -418,6 +471,7 @@ func (fi *FnIntervals) applyRefine(v ssa.Value, op token.Token, oi, vi Itv, m ma
 	case *ssa.ChangeType:
 		m[x.X] = r
 	}
+	return true
 }
 
 // eval computes the interval of an instruction's value.
@@ -426,6 +480,9 @@ func (fi *FnIntervals) eval(v ssa.Value, b *ssa.BasicBlock) Itv {
 	top := ia.top(v.Type())
 	clamp := func(i Itv) Itv {
 		if i.empty() {
+			if !fi.done {
+				return Itv{}
+			}
 			return top
 		}
 		if i.within(top) {
@@ -442,13 +499,18 @@ func (fi *FnIntervals) eval(v ssa.Value, b *ssa.BasicBlock) Itv {
 			for kk, vv := range fi.refine[p] {
 				m[kk] = vv
 			}
-			fi.edgeRefineMulti(p, b, m)
+			if !fi.edgeRefineMulti(p, b, m) {
+				continue // edge not (yet) feasible
+			}
 			out = out.join(fi.atWith(e, p, m))
 		}
 		return clamp(out)
 	case *ssa.BinOp:
 		xi, yi := fi.At(x.X, b), fi.At(x.Y, b)
 		if xi.empty() || yi.empty() {
+			if !fi.done {
+				return Itv{}
+			}
 			return top
 		}
 		switch x.Op {
@@ -531,7 +593,7 @@ func (fi *FnIntervals) eval(v ssa.Value, b *ssa.BasicBlock) Itv {
 		case token.SUB:
 			xi := fi.At(x.X, b)
 			if xi.empty() {
-				return top
+				return clamp(xi)
 			}
 			return clamp(Itv{new(big.Int).Neg(xi.Hi), new(big.Int).Neg(xi.Lo)})
 		case token.MUL:
@@ -576,7 +638,7 @@ func (fi *FnIntervals) eval(v ssa.Value, b *ssa.BasicBlock) Itv {
 			return top // float -> int etc.
 		}
 		if xi.empty() {
-			return top
+			return clamp(xi)
 		}
 		return clamp(xi)
 	case *ssa.ChangeType:
@@ -647,8 +709,8 @@ func (fi *FnIntervals) eval(v ssa.Value, b *ssa.BasicBlock) Itv {
 }
 
 // edgeRefineMulti is edgeRefine for a possibly multi-predecessor target.
-func (fi *FnIntervals) edgeRefineMulti(p, b *ssa.BasicBlock, m map[ssa.Value]Itv) {
-	fi.edgeRefine(p, b, m)
+func (fi *FnIntervals) edgeRefineMulti(p, b *ssa.BasicBlock, m map[ssa.Value]Itv) bool {
+	return fi.edgeRefine(p, b, m)
 }
 
 // lenItv bounds the length of a slice/array/string/map value.
@@ -713,20 +775,61 @@ func (fi *FnIntervals) lenItv(v ssa.Value, b *ssa.BasicBlock) Itv {
 		return out
 	case *ssa.UnOp:
 		if x.Op == token.MUL {
-			if fa, ok := x.X.(*ssa.FieldAddr); ok && ia.LenItv != nil {
+			if fa, ok := x.X.(*ssa.FieldAddr); ok {
 				if st, ok := derefStruct(fa.X.Type()); ok {
-					if i, ok := ia.LenItv(st.Field(fa.Field).Origin()); ok {
-						return i.meet(nonneg)
+					f := st.Field(fa.Field).Origin()
+					if _, isSlice := f.Type().Underlying().(*types.Slice); isSlice {
+						r := fi.fieldLenAt(f, x.Block(), indexIn(x), map[ssa.Value]Itv{}, map[*ssa.BasicBlock]bool{})
+						if !r.empty() {
+							return r.meet(nonneg)
+						}
+					}
+					if ia.LenItv != nil {
+						if i, ok := ia.LenItv(f); ok {
+							return i.meet(nonneg)
+						}
 					}
 				}
 			}
 		}
+	case *ssa.Parameter:
+		return ia.paramLenItv(x).meet(nonneg)
 	case *ssa.Call:
 		if bi, ok := x.Call.Value.(*ssa.Builtin); ok && bi.Name() == "append" && len(x.Call.Args) == 2 {
 			a := fi.lenItv(x.Call.Args[0], b)
 			c := fi.lenItv(x.Call.Args[1], b)
+			if x.Call.Signature().Variadic() {
+				if _, isConstNil := x.Call.Args[1].(*ssa.Const); isConstNil {
+					c = itvConst(0)
+				}
+			}
 			return Itv{new(big.Int).Add(a.Lo, c.Lo), new(big.Int).Add(a.Hi, c.Hi)}.meet(nonneg)
 		}
+		if callee := x.Call.StaticCallee(); callee != nil {
+			name := extName(callee)
+			switch name {
+			case "slices.DeleteFunc", "slices.Compact", "slices.CompactFunc":
+				a := fi.lenItv(x.Call.Args[0], b)
+				return Itv{big.NewInt(0), a.Hi}
+			case "slices.Clone":
+				return fi.lenItv(x.Call.Args[0], b)
+			}
+			if fnInModule(callee) && callee.Blocks != nil {
+				if r := ia.retLenItv(callee, 0); !r.empty() {
+					return r.meet(nonneg)
+				}
+			}
+		}
+	case *ssa.Extract:
+		if call, ok := x.Tuple.(*ssa.Call); ok {
+			if callee := call.Call.StaticCallee(); callee != nil && fnInModule(callee) && callee.Blocks != nil {
+				if r := ia.retLenItv(callee, x.Index); !r.empty() {
+					return r.meet(nonneg)
+				}
+			}
+		}
+	case *ssa.Alloc:
+		// new([N]T) sliced
 	case *ssa.Convert:
 		return fi.lenItv(x.X, b)
 	case *ssa.ChangeType:
@@ -776,6 +879,7 @@ func (ia *IntervalAnalysis) paramItv(p *ssa.Parameter) Itv {
 	for _, e := range n.In {
 		caller := e.Caller.Func
 		if !fnInModule(caller) || e.Site == nil || ia.busy[caller] {
+			ia.taint(caller)
 			return top
 		}
 		cc := e.Site.Common()
@@ -823,6 +927,23 @@ func (ia *IntervalAnalysis) retItv(fn *ssa.Function, i int) Itv {
 		}
 	}
 	return out
+}
+
+// taint marks the functions currently being analysed on behalf of a caller
+// that is itself still being analysed.
+func (ia *IntervalAnalysis) taint(busyCaller *ssa.Function) {
+	if !ia.busy[busyCaller] {
+		return
+	}
+	seen := false
+	for _, f := range ia.stack {
+		if seen {
+			ia.tainted[f] = true
+		}
+		if f == busyCaller {
+			seen = true
+		}
+	}
 }
 
 // isDead: a module function (not a closure) with no incoming call-graph edge
@@ -918,3 +1039,227 @@ func (ia *IntervalAnalysis) FieldLenInvariant(f *types.Var) (Itv, []string) {
 	ia.lens[f] = out
 	return out, notes
 }
+
+func indexIn(ins ssa.Instruction) int {
+	for i, x := range ins.Block().Instrs {
+		if x == ins {
+			return i
+		}
+	}
+	return 0
+}
+
+// lenOfLoaded returns the interval of len(t) for a loaded slice value t, as
+// refined along the path (m): through a len(t) instruction if there is one.
+func (fi *FnIntervals) lenOfLoaded(t ssa.Value, at *ssa.BasicBlock, m map[ssa.Value]Itv) Itv {
+	maxLen := fi.ia.top(types.Typ[types.Int])
+	out := Itv{big.NewInt(0), maxLen.Hi}
+	if u, ok := t.(*ssa.UnOp); ok {
+		if fa, ok := u.X.(*ssa.FieldAddr); ok && fi.ia.LenItv != nil {
+			if st, ok := derefStruct(fa.X.Type()); ok {
+				if i, ok := fi.ia.LenItv(st.Field(fa.Field).Origin()); ok {
+					out = out.meet(i)
+				}
+			}
+		}
+	}
+	if refs := t.Referrers(); refs != nil {
+		for _, r := range *refs {
+			if call, ok := r.(*ssa.Call); ok {
+				if bi, ok := call.Call.Value.(*ssa.Builtin); ok && bi.Name() == "len" {
+					li := fi.atWith(call, at, m)
+					if mm := out.meet(li); !mm.empty() {
+						out = mm
+					}
+				}
+			}
+		}
+	}
+	return out
+}
+
+// fieldLenAt computes the length of the slice held in field f just before
+// instruction #idx of block b, by walking backwards to the reaching stores
+// and loads of the field (any base object of the struct type: the accesses of
+// one function are assumed to be to the same object), accumulating the
+// branch refinements of the edges walked.  Calls that may modify the field
+// and the function entry yield the field's invariant (LenItv).
+func (fi *FnIntervals) fieldLenAt(f *types.Var, b *ssa.BasicBlock, idx int, m map[ssa.Value]Itv, onPath map[*ssa.BasicBlock]bool) Itv {
+	ia := fi.ia
+	inv := func() Itv {
+		if ia.LenItv != nil {
+			if i, ok := ia.LenItv(f); ok {
+				return i
+			}
+		}
+		mx := ia.top(types.Typ[types.Int])
+		return Itv{big.NewInt(0), mx.Hi}
+	}
+	for i := idx - 1; i >= 0; i-- {
+		switch x := b.Instrs[i].(type) {
+		case *ssa.Store:
+			if fa, ok := x.Addr.(*ssa.FieldAddr); ok {
+				if st, ok := derefStruct(fa.X.Type()); ok && st.Field(fa.Field).Origin() == f {
+					mm := map[ssa.Value]Itv{}
+					for k, v := range fi.refine[b] {
+						mm[k] = v
+					}
+					for k, v := range m {
+						if cur, has := mm[k]; has {
+							v = v.meet(cur)
+						}
+						mm[k] = v
+					}
+					save := fi.refine[b]
+					fi.refine[b] = mm
+					r := fi.lenItv(x.Val, b)
+					fi.refine[b] = save
+					return r
+				}
+			}
+		case *ssa.UnOp:
+			if x.Op == token.MUL {
+				if fa, ok := x.X.(*ssa.FieldAddr); ok {
+					if st, ok := derefStruct(fa.X.Type()); ok && st.Field(fa.Field).Origin() == f {
+						// the field was read here and not written since: same value;
+						// first see what reached that load
+						prev := fi.fieldLenAt(f, b, i, m, onPath)
+						here := fi.lenOfLoaded(x, b, m)
+						if r := prev.meet(here); !r.empty() {
+							return r
+						}
+						return here
+					}
+				}
+			}
+		case ssa.CallInstruction:
+			if _, isGo := x.(*ssa.Go); isGo {
+				continue
+			}
+			cc := x.Common()
+			if _, isB := cc.Value.(*ssa.Builtin); isB {
+				continue
+			}
+			mod := false
+			if sc := cc.StaticCallee(); sc != nil {
+				if fnInModule(sc) {
+					mod = ia.p.Effects().Mods(sc)[f]
+				}
+			} else {
+				for _, callee := range ia.p.CalleesAt(x.Pos()) {
+					if fnInModule(callee) && ia.p.Effects().Mods(callee)[f] {
+						mod = true
+					}
+				}
+			}
+			if mod {
+				return inv()
+			}
+		}
+	}
+	if len(b.Preds) == 0 {
+		return inv()
+	}
+	if onPath[b] {
+		return Itv{}
+	}
+	onPath[b] = true
+	defer delete(onPath, b)
+	var out Itv
+	for _, p := range b.Preds {
+		mm := map[ssa.Value]Itv{}
+		for k, v := range m {
+			mm[k] = v
+		}
+		em := map[ssa.Value]Itv{}
+		fi.edgeRefine(p, b, em)
+		for k, v := range em {
+			if cur, has := mm[k]; has {
+				v = v.meet(cur)
+			}
+			if !v.empty() {
+				mm[k] = v
+			}
+		}
+		out = out.join(fi.fieldLenAt(f, p, len(p.Instrs), mm, onPath))
+	}
+	return out
+}
+
+// paramLenItv: join of len(arg) over all live module call sites.
+func (ia *IntervalAnalysis) paramLenItv(p *ssa.Parameter) Itv {
+	mx := ia.top(types.Typ[types.Int])
+	nonneg := Itv{big.NewInt(0), mx.Hi}
+	if i, ok := ia.plens[p]; ok {
+		return i
+	}
+	ia.plens[p] = nonneg
+	fn := p.Parent()
+	idx := -1
+	for i, q := range fn.Params {
+		if q == p {
+			idx = i
+		}
+	}
+	n := ia.p.cg.Nodes[fn]
+	if idx < 0 || n == nil || len(n.In) == 0 || ia.depth > 4 {
+		return nonneg
+	}
+	ia.depth++
+	defer func() { ia.depth-- }()
+	var out Itv
+	for _, e := range n.In {
+		caller := e.Caller.Func
+		if !fnInModule(caller) || e.Site == nil || ia.busy[caller] {
+			ia.taint(caller)
+			return nonneg
+		}
+		if ia.isDead(caller) {
+			continue
+		}
+		cc := e.Site.Common()
+		k := idx
+		if cc.IsInvoke() {
+			k = idx - 1
+		}
+		if k < 0 || k >= len(cc.Args) {
+			return nonneg
+		}
+		cfi := ia.Analyze(caller)
+		out = out.join(cfi.lenItv(cc.Args[k], e.Site.Block()))
+	}
+	if out.empty() {
+		return nonneg
+	}
+	ia.plens[p] = out.meet(nonneg)
+	return ia.plens[p]
+}
+
+// retLenItv: join of the lengths of the slices returned at result index i.
+func (ia *IntervalAnalysis) retLenItv(fn *ssa.Function, i int) Itv {
+	if ia.busy[fn] || ia.depth > 4 {
+		return Itv{}
+	}
+	sig := fn.Signature.Results()
+	if i >= sig.Len() {
+		return Itv{}
+	}
+	if _, ok := sig.At(i).Type().Underlying().(*types.Slice); !ok {
+		return Itv{}
+	}
+	ia.depth++
+	defer func() { ia.depth-- }()
+	fi := ia.Analyze(fn)
+	var out Itv
+	for _, b := range fn.Blocks {
+		if len(b.Instrs) == 0 {
+			continue
+		}
+		if r, ok := b.Instrs[len(b.Instrs)-1].(*ssa.Return); ok && i < len(r.Results) {
+			out = out.join(fi.lenItv(unspill(r.Results[i]), b))
+		}
+	}
+	return out
+}
+
+type ssaValue = ssa.Value
